@@ -134,6 +134,19 @@ def oracle_state(s, keys, ints):
                     yield ("get_add", k, "get(add=True) on a present key changed the section")
         except Exception as e:          # noqa: BLE001
             yield ("get_add", k, "get(add=True) raised %s" % ic.exc(e))
+        # get(k, <an item>, add=True) on a missing key: the appended item is named k and carries the default item's
+        # unit, value, description (and, for a curve, a copy of its array) - "default to provide if mnemonic is missing"
+        if first is None and lst:
+            c = deep_clone(s)
+            di = list.__getitem__(c, 0)
+            try:
+                g = c.get(k, di, add=True)
+                want = (k, di.unit, di.value, di.descr, ic.render_data(di.data), type(di).__name__)
+                got = (g.original_mnemonic, g.unit, g.value, g.descr, ic.render_data(g.data), type(g).__name__)
+                if g is di or got != want or list.__getitem__(c, len(c) - 1) is not g:
+                    yield ("get_item_default", k, "get(k, item, add=True) appended %r, the default item gives %r" % (got, want))
+            except Exception as e:      # noqa: BLE001
+                yield ("get_item_default", k, "get(k, item, add=True) raised %s" % ic.exc(e))
         # assigning a plain value changes only that item's value
         if first is not None:
             c = deep_clone(s)
